@@ -86,7 +86,7 @@ def check_trace(res, case, ki, chain, events):
 def run_one(case, res, collect=None):
     eng = kernels = None
     with liesel_call(res, "engine run", case):
-        eng, kernels, states = drive(case)
+        eng, kernels, states = drive(case, position_keys=case.get("select"))
     if eng is None:
         return None
     results = eng.get_results()
@@ -224,6 +224,15 @@ def gen_cases(tier, seed):
         rng = rng_for(seed, "c07", i)
         c = gen_probe_case(rng, seed, i)
         c["cost"] = total_time(c["spec"]) / max(1, c["chunk"])
+        if rng.random() < 0.3:
+            # explicit selection of tracked keys that leaves some kernels' keys untracked
+            from vlib.enginelab import all_keys
+            ks_ = all_keys(c)
+            exc = [k for k in ks_ if rng.random() < 0.4]
+            if len(exc) == len(ks_):
+                exc = exc[1:]
+            c["select"] = {"included": ["z"] if rng.random() < 0.5 else [], "excluded": exc}
+        c["bad_appends"] = bool(rng.random() < 0.4)
         cases.append(c)
     # hand-picked hostile schedules: several posterior epochs, posterior only, warm-up only
     extra = [
